@@ -143,12 +143,12 @@ static void ref1(Out& ref, i128 stdv, i128 exact)
 enum OpId {
     OP_CAST, OP_FLOOR, OP_CEIL, OP_ROUND, OP_RND4, OP_TP_CAST, OP_TP_RND4,
     OP_CONV, OP_TP_CONV, OP_PLUS, OP_MINUS, OP_DIV, OP_MOD, OP_CMP, OP_TP_CMP, OP_CTYPE, OP_PERIOD, OP_UNARY,
-    OP_TP_UNARY, OP_COMPOUND, OP_TP_COMPOUND, OP_ABS, OP_LIMITS, OP_FCAST_IF, OP_FCONV_IF, OP_SCALAR, OP_TP_ARITH, OP_CASTW, OP_D_CAST, OP_D_RND4, OP_D_ARITH, OP_NONE
+    OP_TP_UNARY, OP_COMPOUND, OP_TP_COMPOUND, OP_ABS, OP_LIMITS, OP_FCAST_IF, OP_FCONV_IF, OP_SCALAR, OP_TP_ARITH, OP_CASTW, OP_D_CAST, OP_D_RND4, OP_D_ARITH, OP_D_MIXED, OP_D_SCALAR, OP_NONE
 };
 static OpId op_id(std::string const& s)
 {
     static char const* const names[] = {"cast", "floor", "ceil", "round", "rnd4", "tp_cast", "tp_rnd4", "conv", "tp_conv", "plus", "minus", "div", "mod", "cmp", "tp_cmp", "ctype", "period",
-        "unary", "tp_unary", "compound", "tp_compound", "abs", "limits", "fcast_if", "fconv_if", "scalar", "tp_arith", "castw", "d_cast", "d_rnd4", "d_arith"};
+        "unary", "tp_unary", "compound", "tp_compound", "abs", "limits", "fcast_if", "fconv_if", "scalar", "tp_arith", "castw", "d_cast", "d_rnd4", "d_arith", "d_mixed", "d_scalar"};
     for (int k = 0; k < OP_NONE; ++k) {
         if (s == names[k]) { return static_cast<OpId>(k); }
     }
@@ -230,8 +230,21 @@ struct Ops {
         }
     }
 
+    // Two harness variants are built from this file: the plain one (integer representations and the double
+    // TARGET) and, with -DC12_FSRC, the one for a double SOURCE representation; each prints "skip" for the other's
+    // operations.  (A library change that stops one family from compiling still leaves the other one running.)
     static bool run(OpId op, Toks& in, Out& impl, Out& ref)
     {
+#ifdef C12_FSRC
+        if (op != OP_D_CAST && op != OP_D_RND4 && op != OP_D_ARITH && op != OP_D_MIXED && op != OP_D_SCALAR) {
+            impl.tok("skip");
+            return true;
+        }
+#else
+        if (op == OP_D_CAST || op == OP_D_RND4 || op == OP_D_ARITH || op == OP_D_MIXED || op == OP_D_SCALAR) {
+            impl.tok("skip");
+            return true;
+        }
         switch (op) {
         case OP_CAST: {
             auto c = static_cast<R1>(in.num());
@@ -577,6 +590,8 @@ struct Ops {
                 return true;
             }
         }
+#endif // not C12_FSRC
+#ifdef C12_FSRC
         if constexpr (RC == 0 && I < CORE && J < CORE) {
             // floating-point SOURCE representation; the double arguments arrive as their 64-bit patterns
             using ED1 = ec::duration<double, EP1>;
@@ -625,7 +640,42 @@ struct Ops {
                 ref.b(a == b).b(a != b).b(a < b).b(a <= b).b(a > b).b(a >= b);
                 return true;
             }
+            if (op == OP_D_MIXED) {
+                // duration<int64, P1>{c} with duration<double, P2>{y}, both orders
+                auto c   = static_cast<R1>(in.num());
+                double y = rd();
+                {
+                    E1 a{c};
+                    ED2 b{y};
+                    static_assert(std::is_same_v<decltype(a + b), decltype(b + a)>);
+                    impl.tok("ok").tok(dbits((a + b).count())).tok(dbits((a - b).count())).tok(dbits((b - a).count()));
+                    impl.b(a == b).b(a != b).b(a < b).b(a <= b).b(a > b).b(a >= b).b(b < a);
+                }
+                S1 a{c};
+                SD2 b{y};
+                ref.tok("ok").tok(dbits((a + b).count())).tok(dbits((a - b).count())).tok(dbits((b - a).count()));
+                ref.b(a == b).b(a != b).b(a < b).b(a <= b).b(a > b).b(a >= b).b(b < a);
+                return true;
+            }
+            if (op == OP_D_SCALAR) {
+                // integer-count duration with a double scalar, double-count duration with an integer scalar
+                auto c   = static_cast<R1>(in.num());
+                double y = rd();
+                {
+                    E1 a{c};
+                    ED1 b{y};
+                    static_assert(std::is_same_v<decltype(a * y), ED1>);
+                    impl.tok("ok").tok(dbits((a * y).count())).tok(dbits((y * a).count())).tok(dbits((a / y).count()));
+                    impl.tok(dbits((b * c).count())).tok(dbits((c * b).count())).tok(dbits((b / c).count()));
+                }
+                S1 a{c};
+                SD1 b{y};
+                ref.tok("ok").tok(dbits((a * y).count())).tok(dbits((y * a).count())).tok(dbits((a / y).count()));
+                ref.tok(dbits((b * c).count())).tok(dbits((c * b).count())).tok(dbits((b / c).count()));
+                return true;
+            }
         }
+#endif // C12_FSRC
         impl.tok("not-instantiated");
         return true;
     }
@@ -643,7 +693,11 @@ constexpr Entry make_entry()
 {
     constexpr int w1 = (RC == 1 || RC == 2) ? 32 : 64;
     constexpr int w2 = (RC == 1 || RC == 3) ? 32 : 64;
+#ifdef C12_FSRC
+    if constexpr (I < CORE && J < CORE && RC == 0 && mine(I, J) && factor_ok<I, J>()) {
+#else
     if constexpr (enabled(I, J, RC) && mine(I, J) && factor_ok<I, J>()) {
+#endif
         return Entry{&Ops<I, J, RC>::run, Per<I>::n, Per<I>::d, Per<J>::n, Per<J>::d, w1, w2};
     } else {
         return Entry{nullptr, Per<I>::n, Per<I>::d, Per<J>::n, Per<J>::d, w1, w2};
@@ -731,6 +785,18 @@ bool vh::run_case(std::string const& op, Toks& in, Out& impl, Out& ref)
     auto j  = static_cast<int>(in.num());
     auto rc = static_cast<int>(in.num());
     i64 n1 = in.num(), d1 = in.num(), w1 = in.num(), n2 = in.num(), d2 = in.num(), w2 = in.num();
+    // the two variants (see Ops::run) split the operations: "d_*" = double source representation
+#ifdef C12_FSRC
+    if (op.rfind("d_", 0) != 0) {
+        impl.tok("skip");
+        return true;
+    }
+#else
+    if (op.rfind("d_", 0) == 0) {
+        impl.tok("skip");
+        return true;
+    }
+#endif
     if (op == "typedefs") {
         impl.tok("ok");
         ref.tok("ok");
